@@ -11,6 +11,7 @@ from .debug_info import DebugInfo
 from .cell import CellType
 from .eval import QvmEval, EvalError
 from .cpu import HaltReason
+from .trap import TrapCode
 
 
 class Breakpoint:
@@ -73,6 +74,13 @@ def unhalted(func):
             HaltReason.END_OF_CODE,
         ]
         if self.cpu.halted and self.cpu.halt_reason in reasons:
+            print('Machine is halted.')
+            return
+        if self.cpu.halted and \
+           self.cpu.halt_reason == HaltReason.TRAP and \
+           self.cpu.last_trap != TrapCode.KEYBOARD_INTERRUPT:
+            # an unhandled run-time error ends the program; only a
+            # keyboard interrupt can be continued from.
             print('Machine is halted.')
             return
         return func(self, *args, **kwargs)
